@@ -16,7 +16,7 @@ import xml.etree.ElementTree as ET
 
 import numpy as np
 
-from .. import contracts, gen, geom
+from .. import aging, contracts, gen, geom
 from .c16 import deep_state, state_diff_keys, SCRATCH
 
 PROPERTY = "C20"
@@ -400,6 +400,11 @@ def run_case(i, rng, rec, tier, state):
         mag = float(10 ** rng.uniform(-6, 6)) if rng.random() < 0.6 else 1.0
         s = cs.Polyhedron(c["V"] * mag, [list(f) for f in c["faces"]], faces_are_convex=True)
         kind = c["kind"]
+    if (i // 2) % 4 == 1:
+        # one shape in four is exported after a public history (resizes, moves, diagonalize_inertia, to_hoomd): the files have
+        # to describe the shape as it is now
+        hist = aging.age(s, rng, allow=("size", "move", "rigid"))
+        rec.cls("history:aged-object")
     with contracts.quiet():
         V = np.array(s.vertices, float)
         faces = [[int(x) for x in f] for f in s.faces]
